@@ -542,7 +542,7 @@ macro_rules! decode_fields {
                 }
             }
             None => {
-                let mut i = 0;
+                let mut i = 0u64;
                 while $d.datatype()? != crate::data::Type::Break {
                     match i {
                         $($n => $x = Some(Decode::decode($d, $c)?),)*
